@@ -35,7 +35,7 @@ def check_and_replay(res, name, K, invariants, properties, own=None, depth_all=0
 
 
 BIG = dict(Hs={'A', 'B', 'C'}, MaxInst=14, MaxFrames=25, Incs={0, 1, 3}, Sites={'p1', 'upd', 'co', 'p2'},
-           Reqs={'nop', 'switch', 'raise', 'quit', 'quit_loop', 'error', 'poke', 'clrquit', 'qlerr', 'switchq', 'direct', 'respawn'},
+           Reqs={'nop', 'switch', 'raise', 'quit', 'quit_loop', 'quitto', 'error', 'poke', 'clrquit', 'qlerr', 'switchq', 'direct', 'respawn'},
            SwitchClearsBeforeLoad=True, StartResetsInFinally=True, SelfSwitchByHandle=True)
 
 
